@@ -459,6 +459,27 @@ theorem every_load_translated (upToDate accepted : Bool) :
     (∀ sp ∈ Warn.compileTextPlan, sp.2 ≠ .bare) := by
   cases upToDate <;> cases accepted <;> decide
 
+/-- the hooks active on EACH step of `_compile_from_file`, on both regeneration paths (module file
+    missing/stale; loaded module of another magic number or generated from another template file): every
+    regeneration runs under both `_translate_module_warnings` and `_drop_expression_warnings` – so the
+    warnings of the fragment parses are dropped there too and never shown as `<unknown>:n` –, every load
+    under the translation hook only -/
+theorem every_regen_under_both_hooks (upToDate accepted : Bool) :
+    ∀ sp ∈ Warn.compileFromFilePlan upToDate accepted,
+      (sp.1 = .regen → sp.2.translates = true ∧ sp.2.drops = true) ∧
+      (sp.1 = .load → sp.2.translates = true ∧ sp.2.drops = false) := by
+  cases upToDate <;> cases accepted <;> decide
+
+/-- the second regeneration path exists exactly when the loaded module is not accepted -/
+example : Warn.compileFromFilePlan true false = [(.load, .module), (.regen, .parseInModule), (.load, .module)] := by
+  decide
+
+/-- what a regeneration outside the drop hook does (phase `module` for a parse-time warning): under
+    `once` the `<unknown>` copy is the one shown and uses up the registry entry, under `always` both show -/
+example : (Warn.compile .once "M".toList "t.html".toList [1, 1, 7] []
+    [(.module, ⟨"w".toList, Warn.exprFilename, 1⟩), (.module, ⟨"w".toList, "M".toList, 3⟩)]).shown
+    = [("w".toList, Warn.exprFilename, 1)] := by decide
+
 /-- what the hypothesis `IsModule` of the `warning_shown_once_*` theorems excludes: a warning of the
     module raised outside the hooks is shown untranslated -/
 example : (Warn.compile .always "M".toList "t.html".toList [1, 1, 7] []
